@@ -72,9 +72,12 @@ the last attempt's errno from tconnect): the observing call returns it and the s
 theorem C06_establish_failure (s : St) (e : Nat) :
     (s.state = .resolving → (finish s [.fail e]).2 = .err e ∧ (finish s [.fail e]).1.state = .bad e) ∧
     (s.state = .connecting → (finish s [.fail e]).2 = .err e ∧ (finish s [.fail e]).1.state = .bad e) ∧
-    (s.state = .resolving → (finish s [.ok, .ok, .fail e]).2 = .err e) := by
-  refine ⟨fun h => ?_, fun h => ?_, fun h => ?_⟩ <;>
-    simp [finish, h, tryEstablish, tryFinishConnect]
+    (s.state = .resolving → (finish s [.ok, .ok, .fail e]).2 = .err e) ∧
+    -- a DNS name as local address: the failure of either resolution is the connection's failure, with its errno
+    (∀ r, s.state = .resolvingLocal r → (finish s [.fail e]).2 = .err e ∧ (finish s [.fail e]).1.state = .bad e) ∧
+    (s.state = .resolvingLocal true → (finish s [.ok, .fail e]).2 = .err e ∧ (finish s [.ok, .fail e]).1.state = .bad e) := by
+  refine ⟨fun h => ?_, fun h => ?_, fun h => ?_, fun r h => ?_, fun h => ?_⟩ <;>
+    simp [finish, h, tryEstablish, finishRemote, beginConnect, tryFinishConnect]
 
 theorem step_terminal {c : Conn} (h : Terminal c.s.state) (op : Op) : (c.step op).s.state = c.s.state := by
   have ht := fun ans => tryEstablish_terminal c.s.state ans h
